@@ -109,11 +109,19 @@ func Run(args []string) int {
 	replay := fs.String("replay", "", "JSON file with {\"objs\": […]} to run instead of generating")
 	withObjs := fs.Bool("objs", false, "include the typed objects in J lines (for corpus files)")
 	only := fs.Int("only", -1, "emit only the J case with this id")
+	wc := fs.String("write-corpus", "", "write the minimal scenarios into this directory and exit")
 	if err := fs.Parse(args); err != nil {
 		return 2
 	}
 	defer outW.Flush()
 	emit := func(l Line) { emitRaw(l) }
+	if *wc != "" {
+		if err := writeCorpus(*wc); err != nil {
+			fmt.Fprintln(os.Stderr, err)
+			return 2
+		}
+		return 0
+	}
 
 	if *replay != "" {
 		data, err := os.ReadFile(*replay)
